@@ -418,6 +418,7 @@ func tryReplay(eng *Engine, t *funcTask, o *Obligation, rawModel map[string]stri
 	for p, n := range b.imports {
 		imps = append(imps, fmt.Sprintf("\t%s %q", n, p))
 	}
+	imps = append(imps, "\thopvcdebug \"runtime/debug\"")
 	sort.Strings(imps)
 	helper := ""
 	if fc != nil && fc.ReplayHelp != "" {
@@ -436,6 +437,7 @@ func TestHopvcReplay(t *testing.T) {
 	defer func() {
 		if r := recover(); r != nil {
 			fmt.Printf("HOPVC-REPLAY: PANIC %%v\n", r)
+			fmt.Printf("HOPVC-REPLAY: STACK %%s\n", hopvcdebug.Stack())
 		}
 	}()
 %s}
@@ -479,9 +481,11 @@ func TestHopvcReplay(t *testing.T) {
 	so := string(out)
 	rr := &replayResult{Test: rel(verifDir(), testFile), Cmd: cmdline, Output: truncate(so, 4000)}
 	switch {
-	case panicKind && strings.Contains(so, "HOPVC-REPLAY: PANIC"):
+	case panicKind && strings.Contains(so, "HOPVC-REPLAY: PANIC") && (siteOf(o.Pos) == "" || strings.Contains(so, siteOf(o.Pos))):
 		rr.Reproduced = true
-		rr.Note = "the real function panics on the solver's input"
+		rr.Note = "the real function panics on the solver's input, at the obligation's source line"
+	case panicKind && strings.Contains(so, "HOPVC-REPLAY: PANIC"):
+		rr.Note = "the real function panics on the reconstructed input, but NOT at the obligation's source line (" + siteOf(o.Pos) + "): not counted as a reproduction"
 	case !panicKind && strings.Contains(so, "POSTCONDITION-VIOLATED"):
 		rr.Reproduced = true
 		rr.Note = "the real function violates the postcondition on the solver's input"
@@ -495,3 +499,12 @@ func TestHopvcReplay(t *testing.T) {
 
 var _ = strconv.Itoa
 var _ *ssa.Function
+
+// siteOf: "dir/file.go:123" -> "/file.go:123" as it appears in a Go stack trace.
+func siteOf(pos string) string {
+	if pos == "" {
+		return ""
+	}
+	i := strings.LastIndexByte(pos, '/')
+	return "/" + pos[i+1:] + " "
+}
